@@ -409,3 +409,147 @@ func normalizeHoistedRanges(pkg *packages.Package) {
 		}
 	}
 }
+
+// normalizeIndexLoops: `for i := 0; i < len(xs); i++ { ... }` (the bound may be a local assigned once from len(xs))
+// is `for i := range xs { ... }` when the body assigns neither i nor xs: the rules recognise what a loop goes over by
+// the range operand. The statement is replaced at load time; the identifiers keep their objects.
+func normalizeIndexLoops(pkg *packages.Package) {
+	info := pkg.TypesInfo
+	for _, file := range pkg.Syntax {
+		for _, d := range file.Decls {
+			fd, ok := d.(*ast.FuncDecl)
+			if !ok || fd.Body == nil {
+				continue
+			}
+			lenOperand := func(e ast.Expr) ast.Expr {
+				c, ok := ast.Unparen(e).(*ast.CallExpr)
+				if !ok || len(c.Args) != 1 {
+					return nil
+				}
+				if id, ok := c.Fun.(*ast.Ident); !ok || id.Name != "len" {
+					return nil
+				} else if _, isB := info.Uses[id].(*types.Builtin); !isB {
+					return nil
+				}
+				switch ast.Unparen(c.Args[0]).(type) {
+				case *ast.Ident, *ast.SelectorExpr:
+					if tv, ok := info.Types[c.Args[0]]; ok {
+						if _, isSlice := tv.Type.Underlying().(*types.Slice); isSlice {
+							return c.Args[0]
+						}
+					}
+				}
+				return nil
+			}
+			convert := func(fs *ast.ForStmt) ast.Stmt {
+				init, ok := fs.Init.(*ast.AssignStmt)
+				if !ok || init.Tok != token.DEFINE || len(init.Lhs) != 1 || len(init.Rhs) != 1 {
+					return nil
+				}
+				iv, ok := init.Lhs[0].(*ast.Ident)
+				if !ok || info.Defs[iv] == nil {
+					return nil
+				}
+				if tv, ok := info.Types[init.Rhs[0]]; !ok || tv.Value == nil || tv.Value.ExactString() != "0" {
+					return nil
+				}
+				io := info.Defs[iv]
+				cond, ok := ast.Unparen(fs.Cond).(*ast.BinaryExpr)
+				if !ok || cond.Op != token.LSS || objOf(info, cond.X) != io {
+					return nil
+				}
+				post, ok := fs.Post.(*ast.IncDecStmt)
+				if !ok || post.Tok != token.INC || objOf(info, post.X) != io {
+					return nil
+				}
+				xs := lenOperand(cond.Y)
+				if xs == nil {
+					// a local assigned once from len(xs)
+					if bo, isVar := objOf(info, cond.Y).(*types.Var); isVar && !bo.IsField() {
+						var rhs ast.Expr
+						n := 0
+						ast.Inspect(fd.Body, func(y ast.Node) bool {
+							if as, ok := y.(*ast.AssignStmt); ok {
+								for i, l := range as.Lhs {
+									if objOf(info, l) == bo {
+										n++
+										if len(as.Lhs) == len(as.Rhs) {
+											rhs = as.Rhs[i]
+										}
+									}
+								}
+							}
+							return true
+						})
+						if n == 1 && rhs != nil {
+							xs = lenOperand(rhs)
+						}
+					}
+				}
+				if xs == nil {
+					return nil
+				}
+				xo := objOf(info, xs)
+				bad := false
+				ast.Inspect(fs.Body, func(y ast.Node) bool {
+					switch st := y.(type) {
+					case *ast.AssignStmt:
+						for _, l := range st.Lhs {
+							if o := objOf(info, l); o != nil && (o == io || (xo != nil && o == xo)) {
+								if _, isIdent := ast.Unparen(l).(*ast.Ident); isIdent {
+									bad = true
+								}
+							}
+							if types.ExprString(ast.Unparen(l)) == types.ExprString(ast.Unparen(xs)) {
+								bad = true
+							}
+						}
+					case *ast.IncDecStmt:
+						if objOf(info, st.X) == io {
+							bad = true
+						}
+					case *ast.UnaryExpr:
+						if st.Op == token.AND && objOf(info, st.X) == io {
+							bad = true
+						}
+					}
+					return !bad
+				})
+				if bad {
+					return nil
+				}
+				return &ast.RangeStmt{For: fs.For, Key: iv, TokPos: init.TokPos, Tok: token.DEFINE, Range: fs.For, X: xs, Body: fs.Body}
+			}
+			ast.Inspect(fd.Body, func(x ast.Node) bool {
+				var list *[]ast.Stmt
+				switch b := x.(type) {
+				case *ast.BlockStmt:
+					list = &b.List
+				case *ast.CaseClause:
+					list = &b.Body
+				case *ast.CommClause:
+					list = &b.Body
+				default:
+					return true
+				}
+				for i, st := range *list {
+					target := st
+					var lab *ast.LabeledStmt
+					if l, ok := st.(*ast.LabeledStmt); ok {
+						lab, target = l, l.Stmt
+					}
+					if fs, ok := target.(*ast.ForStmt); ok && fs.Init != nil && fs.Cond != nil && fs.Post != nil {
+						if rs := convert(fs); rs != nil {
+							if lab != nil {
+								lab.Stmt = rs
+							} else {
+								(*list)[i] = rs
+							}
+						}
+					}
+				}
+				return true
+			})
+		}
+	}
+}
